@@ -75,6 +75,8 @@ func mailbox.(*DirHandler).ProcessInbound(h, msgs) (err)
   call mailbox.writeFileAtomic set gStoreErr := $r0
   ensures error-propagates: gStoreErr != nil ==> err != nil
   loop 0 invariant no-error-yet: gStoreErr == nil
+  # success is reported only after every message of the call was stored
+  at return#3 requires every-message-stored: $idx0 >= len(msgs)
 
 ghost var gStored bool
 ghost var gStoreErr error
@@ -167,5 +169,6 @@ func mailbox.(*DirHandler).GetOutbound(h, fws) (out)
   loop 0 invariant cms-complete: len(fws) == 0 && $idx >= 0 && gFlagAt == $idx + 1 && !streq(gP2PFlag, "true") ==> gAppendedAt == $idx + 1
   loop 0 invariant skip-only-deferred: $idx >= 0 && gFlagAt != $idx + 1 ==> h.deferred[fbb.(*Message).MID(all[$idx])]
   loop 0 invariant positions: gFlagAt <= $idx + 1 && gAppendedAt <= $idx + 1
+  at return requires every-outbox-message-considered: $idx0 >= len(all)
   loop 1 invariant no-append-yet: gAppendedAt == entry(gAppendedAt)
 @*/
